@@ -30,6 +30,21 @@ def run(chk, repo, tier):
     from . import extent_rules as X
     with chk.guard(['C05-e'], 'propagate._mask_shift'):
         X.mask_window_identities(chk, repo, 'C05-e')
+    # the energy captured by a window is that of the samples the contract says are evaluated
+    from .c02 import contracts
+
+    class _Only:
+        def __init__(self, chk):
+            self.chk = chk
+
+        def ob(self, clause, *a, **k):
+            if clause == 'C05-e':
+                return self.chk.ob(clause, *a, **k)
+
+        def undecided(self, clause, *a, **k):
+            if clause == 'C05-e':
+                return self.chk.undecided(clause, *a, **k)
+    contracts(_Only(chk), repo, 'C05-e', 'x', 'x', 'x')
     chk.not_decided += ['Parseval to rounding on commensurate grids', 'monotonicity of captured energy in the window '
                         '(follows from C05-c and C02-e, not evaluated)']
     a = pair('alpha')
